@@ -56,7 +56,20 @@ def rand_config(r, small=False):
     c["glob_nohardlinks"] = r.random() < 0.3
     c["glob_fixed"] = r.choice([None, None, (0o750, 77, 88)])
     c["glob_target"] = r.choice([b"", b"", b"sub/dir"])
+    # a sort file only changes the layout (order, per-file storage flags), never the tree
+    c["sort"] = r.getrandbits(32) if r.random() < 0.3 else None
     return c
+
+
+def sort_file_lines(seed):
+    import random
+    r = random.Random(seed)
+    lines = []
+    for _ in range(r.choice([1, 2, 4, 7])):
+        flags = ["glob_no_path"] + [f for f in ("dont_compress", "dont_fragment", "nosparse", "dont_deduplicate") if r.random() < 0.3]
+        pat = r.choice(["*", "*a*", "*e*", "?*", "*.*", "*0*", "f*", "*1", "??"])
+        lines.append("%d [%s] %s" % (r.choice([-1000, -1, 0, 0, 1, 5, 99999]), ",".join(flags), pat))
+    return ("\n".join(lines) + "\n").encode()
 
 
 def config_args(c):
@@ -139,6 +152,12 @@ def run_pack(binaries, tree, c, work, oc, env_extra=None, timeout=600, stack_kb=
     """Materialise + run gensquashfs.  Returns (RunResult, image path)."""
     img = os.path.join(work, "out.sqfs")
     args = config_args(c)
+    if c.get("sort") is not None:
+        sf = os.path.join(work, "sort.txt")
+        with open(sf, "wb") as f:
+            f.write(sort_file_lines(c["sort"]))
+        args += ["-S", sf]
+        oc.inc("with_sort_file")
     env = {}
     if c.get("sde") is not None:
         env["SOURCE_DATE_EPOCH"] = str(c["sde"])
